@@ -3,7 +3,10 @@
 package verifsim
 
 import (
+	"crypto/sha1"
+	"encoding/binary"
 	"fmt"
+	"math"
 	"os"
 	"sort"
 	"time"
@@ -75,6 +78,7 @@ func (w *worldA) checkAll() {
 	}
 	w.checkTicks()
 	w.checkEjections()
+	w.checkDeterministicDecisions()
 	// canonical log
 	for _, idx := range ids {
 		tm := w.byIdx[idx]
@@ -582,4 +586,44 @@ func (w *worldA) decisionOrder(step, worker int) []*decisionRec {
 		}
 	}
 	return out
+}
+
+// checkDeterministicDecisions: when the one configured sampler is the
+// deterministic sampler for the whole run, what it says about a trace is a
+// documented function of the trace ID and the configured rate (keep iff the
+// first four bytes of SHA-1(trace ID + salt) are at most MaxUint32/rate; rate
+// as configured). The decision the collector applies, however the trace came to
+// be decided (tick, span limit, ejection), is compared with that function
+// computed here, not with what the collector reports.
+func (w *worldA) checkDeterministicDecisions() {
+	preset, ok := w.p.N["sampler"]
+	if !ok {
+		return
+	}
+	rates := map[int64]uint{0: 1, 1: 2, 2: 5, 9: 1 << 31}
+	rate, ok := rates[preset]
+	if !ok {
+		return
+	}
+	for _, op := range w.p.Ops {
+		if op.K == "reload" && op.S == "sampler" {
+			return
+		}
+	}
+	for _, tm := range w.traces {
+		for _, d := range tm.decisions {
+			keep := true
+			if rate > 1 {
+				sum := sha1.Sum([]byte(tm.id + "5VQ8l2jE5aJLPVqk"))
+				keep = binary.BigEndian.Uint32(sum[:4]) <= math.MaxUint32/uint32(rate)
+			}
+			w.out.Probe("decision_compared_with_deterministic_function")
+			if d.kept != keep {
+				w.out.Violate("C02", "decision_not_the_samplers", siteCollect, "trace#%d: the deterministic sampler at rate %d says keep=%v for this trace ID, the collector applied keep=%v", tm.idx, rate, keep, d.kept)
+			}
+			if d.rate != rate {
+				w.out.Violate("C04", "trace_rate_not_the_samplers", siteCollect, "trace#%d: the deterministic sampler is configured with rate %d, the collector decided the trace at rate %d", tm.idx, rate, d.rate)
+			}
+		}
+	}
 }
